@@ -5,10 +5,12 @@
 //   entry split p os mwma fseq fpar mink minn size k  len_0 key.. len_1 key.. ... len_{k-1} key..
 //   entry: 0 parallel_multiway_merge 1 stable_ 2 _sentinels 3 stable_.._sentinels
 //   split: 0 MWMSA_SAMPLING 1 MWMSA_EXACT;  p: num_threads;  os: parallel_multiway_merge_oversampling
-//   mwma : profile * 10 + (0 LOSER_TREE 1 LOSER_TREE_COMBINED 2 LOSER_TREE_SENTINEL 3 BUBBLE); profiles see below
+//   mwma : layout * 100 + profile * 10 + (0 LOSER_TREE 1 LOSER_TREE_COMBINED 2 LOSER_TREE_SENTINEL 3 BUBBLE); profiles see below
 //   fseq/fpar/mink/minn: the four global switches
-// Elements are (key, seq, pos) triples compared by key only, so stability is observable.  Every input
-// sequence lives in its own heap block followed by one sentinel (key INT_MAX).  The output goes through a
+// Elements are (key, seq, pos) triples compared by key only, so stability is observable.  The memory
+// regime of the inputs (own exactly sized heap blocks / one shared buffer / sentinel behind each sequence) is
+// described where the inputs are built.  Also: lines "ms stable p split os n key.." run (stable_)parallel_mergesort.
+// The output goes through a
 // logging random-access iterator over a buffer of exactly `size` elements: every write records the
 // writing thread and bumps a per-position counter; a write outside [0,size) is recorded and dropped.
 //
@@ -17,6 +19,7 @@
 //   w   = ok | multi@<pos> | missing@<pos> | oob<count>
 //   fp  = 1 iff (sampling) some double-precision sample index differs from the exact integer floor
 #include <atomic>
+#include <algorithm>
 #include <climits>
 #include <cstdio>
 #include <cstdlib>
@@ -30,12 +33,36 @@
 #include <vector>
 
 #include <tlx/algorithm/parallel_multiway_merge.hpp>
+#include <tlx/sort/parallel_mergesort.hpp>
 
+// Two element kinds (one binary each):
+//  default : 12-byte record (copy-based loser trees)
+//  -DC07_FAT: 40-byte record (> 2*sizeof(size_t): pointer-based loser trees) whose key lives in a heap cell it
+//             owns; the destructor overwrites the key with INT_MIN and frees the cell, so a comparison with a dead
+//             element is a heap-use-after-free for ASan (and would compare smaller than every live key).
+#ifdef C07_FAT
 struct Elem {
-    int key, seq, pos;
+    int* cell;
+    int seq, pos;
+    long pad[2];
+    Elem() : cell(new int(0)), seq(-7), pos(-7), pad{0, 0} {}
+    Elem(int k, int s, int p) : cell(new int(k)), seq(s), pos(p), pad{0, 0} {}
+    Elem(const Elem& o) : cell(new int(*o.cell)), seq(o.seq), pos(o.pos), pad{0, 0} {}
+    Elem& operator=(const Elem& o) { *cell = *o.cell; seq = o.seq; pos = o.pos; return *this; }
+    ~Elem() { *cell = INT_MIN; delete cell; }
+    int key() const { return *cell; }
 };
+static_assert(sizeof(Elem) > 2 * sizeof(size_t), "fat element must select the pointer loser trees");
+#else
+struct Elem {
+    int key_, seq, pos;
+    Elem() : key_(0), seq(-7), pos(-7) {}
+    Elem(int k, int s, int p) : key_(k), seq(s), pos(p) {}
+    int key() const { return key_; }
+};
+#endif
 struct ByKey {
-    bool operator()(const Elem& a, const Elem& b) const { return a.key < b.key; }
+    bool operator()(const Elem& a, const Elem& b) const { return a.key() < b.key(); }
 };
 
 static std::atomic<int> g_next_tid{0};
@@ -111,14 +138,14 @@ inline LogIt operator+(std::ptrdiff_t d, const LogIt& i) { return i + d; }
 //  5 as 0 with only num_threads defaulted
 //  (element iterators whose difference_type is not std::ptrdiff_t do not compile: the per-thread call hands
 //   std::vector<pair>::iterator to multiway_merge_4_combined, which mixes both difference_types in std::min)
-inline bool operator<(const Elem& a, const Elem& b) { return a.key < b.key; }
+inline bool operator<(const Elem& a, const Elem& b) { return a.key() < b.key(); }
 struct ByKeyGreater {
-    bool operator()(const Elem& a, const Elem& b) const { return a.key > b.key; }
+    bool operator()(const Elem& a, const Elem& b) const { return a.key() > b.key(); }
 };
 struct CountingLess {
     std::atomic<long>* calls;   // shared by the merging threads: atomic, relaxed (no synchronisation added)
     explicit CountingLess(std::atomic<long>* c) : calls(c) {}
-    bool operator()(const Elem& a, const Elem& b) const { calls->fetch_add(1, std::memory_order_relaxed); return a.key < b.key; }
+    bool operator()(const Elem& a, const Elem& b) const { calls->fetch_add(1, std::memory_order_relaxed); return a.key() < b.key(); }
 };
 // defaults: 0 = all arguments explicit, 1 = num_threads defaulted, 2 = comp, mwma, mwmsa, num_threads defaulted
 template <class SeqIt, class OutIt, class Comp, class Size>
@@ -183,24 +210,70 @@ int main(int argc, char** argv) {
     std::string line;
     while (std::getline(in, line)) {
         if (line.empty() || line[0] == '#') continue;
+        if (line.compare(0, 3, "ms ") == 0) {
+            // "ms stable p split os n key.."  -> (stable_)parallel_mergesort of n elements (key, 0, index)
+            std::istringstream ms(line.substr(3));
+            long stable, p, split, os, n;
+            ms >> stable >> p >> split >> os >> n;
+            std::vector<Elem> v;
+            v.reserve(static_cast<size_t>(n));
+            for (long i = 0; i < n; ++i) { long key; ms >> key; v.push_back(Elem(static_cast<int>(key), 0, static_cast<int>(i))); }
+            v.shrink_to_fit();
+            tlx::parallel_multiway_merge_oversampling = static_cast<size_t>(os);
+            auto sp = static_cast<tlx::MultiwayMergeSplittingAlgorithm>(split);
+            if (stable) tlx::stable_parallel_mergesort(v.begin(), v.end(), ByKey(), static_cast<size_t>(p), sp);
+            else tlx::parallel_mergesort(v.begin(), v.end(), ByKey(), static_cast<size_t>(p), sp);
+            std::ostringstream o;
+            o << "ms out=";
+            for (long i = 0; i < n; ++i) o << (i ? "," : "") << v[i].key() << ":" << v[i].seq << ":" << v[i].pos;
+            puts(o.str().c_str());
+            fflush(stdout);
+            continue;
+        }
         std::istringstream is(line);
         long entry, split, p, os, mwmaf, fseq, fpar, mink, minn, size, k;
         if (!(is >> entry >> split >> p >> os >> mwmaf >> fseq >> fpar >> mink >> minn >> size >> k)) {
             puts("BAD-CASE"); fflush(stdout); continue;
         }
-        long profile = mwmaf / 10, mwma = mwmaf % 10;
+        // mwma field = layout * 100 + profile * 10 + MWMA constant
+        long layout = mwmaf / 100, profile = (mwmaf / 10) % 10, mwma = mwmaf % 10;
         const bool neg = (profile == 2);
-        std::vector<std::vector<Elem>*> store;
-        std::vector<Pair> seqs;
+        // memory regimes.  *_sentinels entry points (entry >= 2): every sequence in its own heap block, followed by
+        // the sentinel the caller owes.  Other entry points: NO sentinel; layout 0 = every sequence in its own exactly
+        // sized heap block (an overrun is an ASan heap-buffer-overflow), layout 1 = all sequences adjacent in ONE
+        // exactly sized buffer (an overrun reads the next sequence's first elements: wrong output).
+        const bool with_sentinel = entry >= 2;
+        const bool adjacent = !with_sentinel && layout == 1;
+        std::vector<std::vector<long>> keys(static_cast<size_t>(k));
         long total = 0;
         for (long s = 0; s < k; ++s) {
             long len; is >> len;
-            auto* v = new std::vector<Elem>(static_cast<size_t>(len + 1));
-            for (long i = 0; i < len; ++i) { long key; is >> key; (*v)[i] = Elem{static_cast<int>(neg ? -key : key), static_cast<int>(s), static_cast<int>(i)}; }
-            (*v)[len] = Elem{neg ? -INT_MAX : INT_MAX, static_cast<int>(s), -1};
-            store.push_back(v);
-            seqs.push_back(Pair(v->data(), v->data() + len));
+            for (long i = 0; i < len; ++i) { long key; is >> key; keys[s].push_back(key); }
             total += len;
+        }
+        std::vector<std::vector<Elem>*> store;     // layout 0 / sentinel regime
+        std::vector<Elem> big;                     // layout 1
+        std::vector<long> off(static_cast<size_t>(k) + 1, 0);
+        std::vector<Pair> seqs;
+        if (adjacent) {
+            big.reserve(static_cast<size_t>(total));
+            for (long s = 0; s < k; ++s) {
+                off[s] = static_cast<long>(big.size());
+                for (size_t i = 0; i < keys[s].size(); ++i) big.push_back(Elem(static_cast<int>(neg ? -keys[s][i] : keys[s][i]), static_cast<int>(s), static_cast<int>(i)));
+            }
+            off[k] = static_cast<long>(big.size());
+            for (long s = 0; s < k; ++s) seqs.push_back(Pair(big.data() + off[s], big.data() + off[s + 1]));
+        } else {
+            for (long s = 0; s < k; ++s) {
+                long len = static_cast<long>(keys[s].size());
+                auto* v = new std::vector<Elem>();
+                v->reserve(static_cast<size_t>(len + (with_sentinel ? 1 : 0)));
+                for (long i = 0; i < len; ++i) v->push_back(Elem(static_cast<int>(neg ? -keys[s][i] : keys[s][i]), static_cast<int>(s), static_cast<int>(i)));
+                if (with_sentinel) v->push_back(Elem(neg ? -INT_MAX : INT_MAX, static_cast<int>(s), -1));
+                v->shrink_to_fit();
+                store.push_back(v);
+                seqs.push_back(Pair(v->data(), v->data() + len));
+            }
         }
         // does the double-precision sample index of the C++ agree with the exact floor?
         int fp = 0;
@@ -238,7 +311,10 @@ int main(int argc, char** argv) {
         case 1: {   // raw array of pairs over vector iterators, plain pointer output
             using EIt = std::vector<Elem>::iterator;
             std::vector<std::pair<EIt, EIt>> orig;
-            for (long s = 0; s < k; ++s) orig.push_back({store[s]->begin(), store[s]->begin() + (store[s]->size() - 1)});
+            for (long s = 0; s < k; ++s) {
+                if (adjacent) orig.push_back({big.begin() + off[s], big.begin() + off[s + 1]});
+                else orig.push_back({store[s]->begin(), store[s]->begin() + static_cast<long>(keys[s].size())});
+            }
             std::vector<std::pair<EIt, EIt>> work(orig);
             auto mk = [](std::vector<Elem>& b, long g) { return b.data() + g; };
             run_plain(entry, work.data(), work.data() + k, orig, out, mk, static_cast<std::ptrdiff_t>(size), ByKey(), a, sp, static_cast<size_t>(p), oc);
@@ -248,7 +324,10 @@ int main(int argc, char** argv) {
             using EIt = std::deque<Elem>::iterator;
             std::vector<std::deque<Elem>> dq(static_cast<size_t>(k));
             std::vector<std::pair<EIt, EIt>> orig;
-            for (long s = 0; s < k; ++s) { dq[s].assign(store[s]->begin(), store[s]->end()); orig.push_back({dq[s].begin(), dq[s].end() - 1}); }
+            for (long s = 0; s < k; ++s) {
+                dq[s].assign(seqs[s].first, seqs[s].second + (with_sentinel ? 1 : 0));
+                orig.push_back({dq[s].begin(), dq[s].begin() + static_cast<long>(keys[s].size())});
+            }
             std::deque<std::pair<EIt, EIt>> work(orig.begin(), orig.end());
             auto mk = [](std::vector<Elem>& b, long g) { return b.begin() + g; };
             run_plain(entry, work.begin(), work.end(), orig, out, mk, static_cast<std::ptrdiff_t>(size), ByKeyGreater(), a, sp, static_cast<size_t>(p), oc);
@@ -270,7 +349,7 @@ int main(int argc, char** argv) {
         o << "ret=" << oc.ret << " cur=";
         for (long s = 0; s < k; ++s) o << (s ? "," : "") << oc.cur[s];
         o << " out=";
-        for (long i = 0; i < size; ++i) o << (i ? "," : "") << (neg ? -out[i].key : out[i].key) << ":" << out[i].seq << ":" << out[i].pos;
+        for (long i = 0; i < size; ++i) o << (i ? "," : "") << (neg ? -out[i].key() : out[i].key()) << ":" << out[i].seq << ":" << out[i].pos;
         o << " win=";
         std::string verdict = "ok";
         if (oc.logged) {
